@@ -184,4 +184,13 @@ example : Sane exView exView.players[0]! ∧ botMoves exView 0 = [.allin, .fold,
     PF.accepts exView exView.players[0]! "raise" 40 = true := by
   refine ⟨⟨by decide, by decide, by decide, by decide, by decide, by decide⟩, by decide, by decide⟩
 
+/-- `botRunner.requestMove` as the source has it now (regenerated from actor/bot_runner.go): a humanised bot parks its move
+on the time bank and, when the thinking is over, decides on the hand state it was asked on (`gs`, the argument) — not on
+whatever view reached it since -/
+theorem C18_request_move_fact : Facts.botRequestMove.drop 1 =
+    ["if !br.isHumanized || br.tableInfo.Meta.ActionTime == 0 { return br.requestAI(gs, playerIdx) }",
+     "thinkingTime := rand.Intn(br.tableInfo.Meta.ActionTime)",
+     "if thinkingTime == 0 { return br.requestAI(gs, playerIdx) }",
+     "return br.timebank.NewTask(time.Duration(thinkingTime)*time.Second, func(isCancelled bool) { if isCancelled { return } br.requestAI(gs, playerIdx) })"] := by rfl
+
 end AC
